@@ -214,8 +214,8 @@ Section Validity.
       destruct (fst te) as [[|x r]|].
       - cbn [bind fst snd]. apply (Fin [] [] (Forall_nil _) Nil).
       - pose proof (pfiles_rel V C H render_o yload t V_norerender yload_wf (i_files oc) (files_usable _ Hf)
-                      (fuel_for t) [[s_topfile]] (map name_of_top_elem (x :: r)) [] (nc_ok_nil _ _ _ _ _)) as R.
-        destruct (pfiles V C H render_o yload t (fuel_for t) (i_files oc) [[s_topfile]] (map name_of_top_elem (x :: r)) [])
+                      (fuel_for t) (initial_parents V) (map name_of_top_elem (x :: r)) [] (nc_ok_nil _ _ _ _ _)) as R.
+        destruct (pfiles V C H render_o yload t (fuel_for t) (i_files oc) (initial_parents V) (map name_of_top_elem (x :: r)) [])
           as [[pl nc]|e]; cbn [bind fst snd]; [|discriminate].
         destruct R as (_ & Nc & P).
         assert (Hnc : forall n e, flookup n nc = Some e -> cfile_valid e) by (intros n e E; apply (Nc n e E)).
